@@ -116,6 +116,9 @@ func serve(r *rt.Router, q Req) (outcome, error) {
 		return outcome{}, fmt.Errorf("ServeHTTP ran %d handlers", len(sv.Hits))
 	}
 	h := sv.Hits[0]
+	if m := h.WrapMismatch(); m != "" {
+		return outcome{}, fmt.Errorf("%s", m)
+	}
 	return outcome{sv.Code, h.Kind, h.Pattern, h.Params, sv.Header.Get("Location")}, nil
 }
 
